@@ -282,8 +282,19 @@ pub fn child_stress(seed: u64, nthreads: usize, rounds: usize) -> i32 {
         handles.push(std::thread::spawn(move || {
             let mut x = seed.wrapping_mul(0x9E3779B97F4A7C15).wrapping_add(t as u64 + 1);
             let mut seen: Vec<(usize, String)> = Vec::new();
-            // half of the threads stay inside the collision families
-            let (lo, hi) = if t % 2 == 1 { (120usize.min(calls.len() - 1), calls.len()) } else { (0, calls.len()) };
+            // half of the threads stay inside ONE collision family (chosen by seed and thread pair),
+            // so that two neighbouring threads keep hitting code points that differ by 2^k
+            let nalpha = alphabet().len();
+            let fam_len = (calls.len() - nalpha) / 7;
+            let (lo, hi) = if t % 2 == 1 && fam_len > 0 {
+                let f = ((seed as usize) + t / 2) % 7;
+                (nalpha + f * fam_len, (nalpha + (f + 1) * fam_len).min(calls.len()))
+            } else if t % 4 == 2 && fam_len > 0 {
+                let f = ((seed as usize) + (t + 1) / 2) % 7;
+                (nalpha + f * fam_len, (nalpha + (f + 1) * fam_len).min(calls.len()))
+            } else {
+                (0, calls.len())
+            };
             b.wait();
             for _ in 0..((x >> 7) % 64) {
                 std::hint::spin_loop();
@@ -336,8 +347,8 @@ pub fn stress(run: &Run, st: &mut Stats) -> serde_json::Value {
         st.caps_hit.push("MACHINERY: stress pass: expectation table has the wrong size".into());
         return json!(null);
     }
-    let children = run.tier.pick(12usize, 48usize);
-    let rounds = run.tier.pick(4000usize, 20000usize);
+    let children = run.tier.pick(24usize, 64usize);
+    let rounds = run.tier.pick(40000usize, 200000usize);
     let outs: Vec<(u64, String)> = (0..children as u64)
         .into_par_iter()
         .map(|k| {
